@@ -424,6 +424,18 @@ class FnAnalysis:
             if arg is not None and self.is_derived(arg, st):
                 st['globseed'] = True
             return
+        if f in ('int', 'float', 'abs', 'round', 'np.int64', 'np.uint32',
+                 'np.int32', 'operator.index') and len(n.args) == 1 \
+                and isinstance(n.args[0], ast.Name):
+            v = self.val(n.args[0], st)
+            if v is not None and 'GEN' in v and self.gen_admitted:
+                self.reports.append((
+                    'R16.3', n, 'conversion %s' % f,
+                    '`%s` where `%s` may be a numpy Generator (admitted as '
+                    'seed) — raises TypeError, so a seeded call that hands '
+                    'its generator on fails here' % (
+                        norm_stmt(n)[:60], n.args[0].id)))
+            return
         if f in ('np.random.default_rng', 'numpy.random.default_rng'):
             args = list(n.args) + [k.value for k in n.keywords]
             for a in args:
